@@ -70,6 +70,25 @@ class Roles(unittest.TestCase):
         self.assertTrue(any(k.startswith("linspace-args") and v == "VIOLATED" for k, v in f.items()))
 
 
+class GenericRules(unittest.TestCase):
+    def run_rule(self, fn):
+        from vstat.loader import Package
+        from vstat.paths import Analysis
+        from vstat.report import Ctx
+        from vstat.rules import common
+        pkg = Package(ROOT / "fixtures" / "mini", name="mini")
+        ctx = Ctx("CXX", "quick", pkg, Analysis(pkg))
+        ctx.consulted.add("mini.core." + fn)
+        common.permutation_gather(ctx)
+        return [o.verdict for o in ctx.obs.values()]
+
+    def test_gather_with_the_permutation_itself_is_reported(self):
+        self.assertEqual(self.run_rule("nested_windows_wrong"), ["VIOLATED"])
+
+    def test_gather_with_the_inverse_is_silent(self):
+        self.assertEqual(self.run_rule("nested_windows_right"), [])
+
+
 class Effects(unittest.TestCase):
     def test_writes(self):
         from vstat.effects import Effects
